@@ -68,7 +68,7 @@ func runFormulas(rng *rand.Rand, n int, out *Out, _ []string) {
 		if i%4 == 0 {
 			formulaRops(rng, out)
 		}
-		runBatches(rng, out)
+		runBatches(rng, out, i%2 == 0)
 	}
 }
 
